@@ -673,7 +673,10 @@ def rand_shape(rnd):
             accs[attr] = {'kind': 'cmd', 'wire': auto if r < 0.75 else ('' if r < 0.9 else 'y_' + attr),
                           'arg': {'t': 'none'} if rnd.random() < 0.3 else rand_dt(rnd),
                           'ret': num(rnd.randint(0, 5)) if rnd.random() < 0.5 else NULL}
-        cand = [a for a, x in accs.items() if x['wire'] and not x.get('islimit')]
+        first = next(a for a, x in accs.items() if x['kind'] == 'param' and not x.get('islimit'))
+        if not accs[first]['wire']:           # every module exports at least one parameter
+            accs[first]['wire'] = first if first in PREDEFINED_ACCESSIBLES else '_' + first
+        cand = [a for a, x in accs.items() if x['wire'] and not x.get('islimit') and a != first]
         if cand and rnd.random() < 0.3:      # hidden by the configuration: <attr> = Param(export=False)
             x = accs[rnd.choice(cand)]
             x['cls_wire'], x['wire'] = x['wire'], ''
